@@ -204,7 +204,8 @@ add('C11',
     rule='QS domain: E1 all admissible whole-operation sequences over 1-3 agents (depth 8/5/4) + random to depth 60 (200), E3 bounded-preemption DFS over 10 two/three-worker micro-scripts and PCT/random schedules with switches at every atomic access and mutex operation, E2 RCU torture under ThreadSanitizer/ASan; event-log oracle S1/S2/S4 + bounded progress (callback within 8 rounds)',
     jobs=[job('qs', 'c11_qs.cpp', shards={'quick': 12, 'thorough': 16}),
           job('qs_tsan', 'c11_tsan.cpp', flavour='tsan', shards={'quick': 3, 'thorough': 6}),
-          job('qs_asan_threads', 'c11_tsan.cpp', flavour='asan', shards={'quick': 1, 'thorough': 2})],
+          job('qs_asan_threads', 'c11_tsan.cpp', flavour='asan', shards={'quick': 1, 'thorough': 2}),
+          job('qs_tsan_ticket_mutex', 'c11_tsan.cpp', flavour='tsan', defines=['-DC11_TICKET_MUTEX'], shards={'quick': 2, 'thorough': 4})],
     min_evaluations={'quick': 100000, 'thorough': 1000000},
     min_counters={'e1_admissible_sequences': 20000, 'e3_schedules': 5000, 'dfs_spaces_exhausted': 3, 'tsan_callbacks': 1000, 'tsan_reader_sections': 10000},
     assumptions=['liveness is decided as bounded progress: after the scripted part every registered callback must run within 8 rounds of (every online agent: quiescent_state; registrant: run)',
